@@ -21,6 +21,7 @@ Inductive cexpr :=
 | CCons (args : list cexpr)                                      (* brace / constructor initialisation *)
 | CSeq (a b : cexpr)
 | CCond (c a b : cexpr)                                          (* c ? a : b *)
+| CLex (a b : cexpr)                                             (* if (auto c = a) return c; return b; *)
 | CDefaultedEq (fields : list string)
 | CUnknown (what : string).
 
@@ -110,6 +111,12 @@ Fixpoint eval (fuel : nat) (this : value) (params : list value) (e : cexpr) : va
         | VB true => eval f this params a
         | VB false => eval f this params b
         | _ => VErr "condition"
+        end
+    | CLex a b =>
+        match eval f this params a with
+        | VZ 0 => eval f this params b
+        | VZ z => VZ z
+        | _ => VErr "three-way result"
         end
     | CSeq a b =>
         (* `++index; return *this;` : the updated iterator *)
